@@ -35,6 +35,7 @@ func runC07(c *Ctx, r *Report) {
 	c07R34(c, r)
 	c07R5(c, r, "C07.R5")
 	c07R9(c, r, "C07.R9")
+	c07ALPN(c, r, "C07.R11")
 	// R6
 	c06R3only(c, r, "C07.R6", "modules/l4tls.")
 }
@@ -1065,4 +1066,84 @@ func c07R9(c *Ctx, r *Report, rule string) {
 		where = c.ipos(esc)
 	}
 	r.check(esc == nil, rule, fnName, "fallback on every path", c.pos(fn.Pos()), "no return avoids the fallback", "the return at "+where+" is reachable without the supported-versions fallback: for a hello without extensions (or cut short) the matcher reports no versions where Go's TLS server reports those implied by the legacy version")
+}
+
+// c07ALPN: the alpn sub-matcher sees what the terminating server sees. ALPN protocol ids are opaque byte strings
+// (RFC 7301): crypto/tls offers and selects them by exact comparison. MatchALPN.Match is evaluated on configured
+// lists x offered lists: it matches exactly when some configured id equals some offered id byte for byte.
+func c07ALPN(c *Ctx, r *Report, rule string) {
+	r.rule(rule, "alpn sub-matcher (evaluation of MatchALPN.Match on configured x offered protocol lists, ids differing in case, prefix and order included): matches exactly when a configured id equals an offered id byte for byte, as crypto/tls compares them", 8)
+	fnName := "modules/l4tls.(*MatchALPN).Match"
+	fn := c.Fn(fnName)
+	if fn == nil {
+		r.bad(rule, fnName, "exists", "-", "function not found")
+		return
+	}
+	type tc struct{ cfg, offered []string }
+	cases := []tc{
+		{[]string{"h2"}, []string{"h2"}},
+		{[]string{"h2"}, []string{"http/1.1", "h2"}},
+		{[]string{"h2", "http/1.1"}, []string{"http/1.1"}},
+		{[]string{"h2"}, []string{"H2"}},
+		{[]string{"H2"}, []string{"h2"}},
+		{[]string{"h2"}, []string{"h2c"}},
+		{[]string{"h2c"}, []string{"h2"}},
+		{[]string{"h2"}, []string{"http/1.1"}},
+		{[]string{"h2"}, nil},
+		{nil, []string{"h2"}},
+		{[]string{"acme-tls/1"}, []string{"ACME-TLS/1"}},
+	}
+	for _, cs := range cases {
+		want := false
+		for _, a := range cs.cfg {
+			for _, b := range cs.offered {
+				if a == b {
+					want = true
+				}
+			}
+		}
+		name := fmt.Sprintf("configured %q, offered %q", cs.cfg, cs.offered)
+		base := msgScenario(c, msgMatcher{fn: fnName}, msgCase{})
+		base.Name = name
+		base.MaxVisit = 12
+		base.Params = map[string]SV{"recv": symRef("m", false), "p0": symRef("hello", false)}
+		list := func(desc string, xs []string) SV {
+			l := symInt(int64(len(xs)))
+			for i, x := range xs {
+				base.Heap[fmt.Sprintf("%s[%d]", desc, i)] = symStr(x)
+			}
+			return SV{K: "slice", Desc: desc, Len: &l, Cap: &l, Known: true}
+		}
+		base.Heap["m"] = list("cfg", cs.cfg)
+		base.Heap["hello.SupportedProtos"] = list("offered", cs.offered)
+		inner := base.Call
+		base.Call = func(callee string, args []SV, ev *symEval, st *symState) (SV, bool) {
+			switch {
+			case strings.HasSuffix(callee, "ClientHelloInfo).Context"):
+				return symNil(), true
+			case strings.HasSuffix(callee, "caddy/v2.NewReplacer"):
+				return symRef("repl", false), true
+			}
+			return inner(callee, args, ev, st)
+		}
+		paths, err := evalPaths(fn, base)
+		if err != nil || len(paths) == 0 {
+			r.bad(rule, fnName, name, c.pos(fn.Pos()), fmt.Sprintf("undecided: %v", err))
+			continue
+		}
+		var got []string
+		good := true
+		for _, p := range paths {
+			if p.Outcome != "return" || len(p.Ret) != 1 || !p.Ret[0].Known {
+				good = false
+				got = append(got, "undecided")
+				continue
+			}
+			got = append(got, fmt.Sprint(p.Ret[0].B))
+			if p.Ret[0].B != want {
+				good = false
+			}
+		}
+		r.check(good, rule, fnName, name, c.pos(fn.Pos()), fmt.Sprintf("match=%v", want), fmt.Sprintf("the alpn matcher answers %v, exact comparison of the ids (what crypto/tls does with them) gives %v: routing on ALPN then disagrees with the protocol the terminating server negotiates", dedup(got), want))
+	}
 }
